@@ -5,6 +5,7 @@ menu, and a depth-bounded two-agent leg.  The oracle works in exact rationals (a
 the implementation's float arithmetic is exact too).
 """
 import itertools
+import sys
 from fractions import Fraction as Fr
 
 from mc.engine import hbfs, par
@@ -50,8 +51,24 @@ def wrap_flag(wrap):
     return wrap
 
 
+class Slab(Envs.DiscreteWorld):
+    """A user world reporting two of its axes (x, z) from the documented get_dimensions() hook."""
+
+    def get_dimensions(self):
+        return self.width, self.depth
+
+
+class Flipped(Envs.SpaceWorld):
+    def get_dimensions(self):
+        return self.height, self.width, self.depth
+
+
 def mk_world(model, kind, dims, wrap):
     wrap = wrap_flag(wrap)
+    if kind == 'slab':
+        return Slab(model, *dims, wrap_env=wrap)
+    if kind == 'flipped':
+        return Flipped(model, *dims, wrap_env=wrap)
     if kind == 'space':
         return Envs.SpaceWorld(model, *dims, wrap_env=wrap)
     if kind == 'discrete':
@@ -119,11 +136,11 @@ class Harness:
         self.agents = list(agents)
         self.rich = rich
         self.step = step
-        self.cont = kind == 'space'
+        self.cont = kind in ('space', 'flipped')
         self.off = 0 if self.cont else 1
         self.config = {'kind': kind, 'dims': list(dims), 'wrap': wrap, 'agents': list(agents), 'rich': rich,
                        'step': step}
-        self.nargs = {'space': 3, 'discrete': 3, 'line': 1, 'grid': 2}[kind]
+        self.nargs = {'space': 3, 'discrete': 3, 'line': 1, 'grid': 2, 'slab': 3, 'flipped': 3}[kind]
         d3 = list(dims) + [0] * (3 - len(dims))
         self.d3 = d3
         self._menu = self._build_menu()
@@ -163,6 +180,13 @@ class Harness:
                         p = list(base)
                         p[ax] = v
                         outside.append(p)
+                    if not cont and base is hi:
+                        # far outside, but equal to an accepted coordinate modulo the modulus Python hashes ints with
+                        # (and modulo 2**64): a memo of accepted targets keyed by hash must not take it for a known one
+                        for far in (base[ax] + sys.hash_info.modulus, base[ax] - sys.hash_info.modulus, base[ax] + 2 ** 64):
+                            p = list(base)
+                            p[ax] = far
+                            outside.append(p)
         seen, uniq = set(), []
         for p in targets + outside:
             # only coordinates the entry point can express: line takes x, 2-D grid x,y
@@ -496,6 +520,11 @@ def run(ctx):
     items = [(c, 60) for c in configs(ctx.tier)]
     items += [(c, 3 if ctx.tier == 'quick' else 4) for c in two_agent_configs(ctx.tier)]
     items += [(c, 60) for c in odd_flag_configs()]
+    # user worlds whose get_dimensions() reports something else than (width, height, depth): moves are governed by the
+    # world's real extents
+    for wrap in (False, True):
+        items += [(('slab', [3, 2, 4], wrap, ['a'], True, 1), 60), (('slab', [2, 0, 3], wrap, ['a'], True, 1), 60),
+                  (('flipped', [1.5, 3, 0], wrap, ['a'], True, 0.5), 60)]
     # unusual agents: a nested environment, an agent class with its own __len__, a class-level position component
     for key in ('e', 'g', 'h', 'i', 'y'):
         for wrap in (False, True):
